@@ -138,6 +138,11 @@ def correspond(ctx, corr, model_ok):
         corr.oracle_failures.extend(tcp_oracle(case, r))
         corr.count('real TransportTCP cut (%s, %s)' % (case[0], case[2]))
         corr.evaluations += 1
+    corr.oracle_failures.extend(immediate_close_oracle())
+    corr.count('close() within two loop iterations of the creation of the endpoint', 6)
+    from harness.props import c07
+    corr.oracle_failures.extend(c07.late_requests_oracle())
+    corr.count('requests issued inside the close sweep / after the loss, then close()', 18)
     if model_ok:
         E.trace_corr(corr, runs, KEEP, KEYS, 'C11 close projection vs model/Endpoint.v')
     corr.rule = ('legal random histories of 2..16 actions ended by EOF / transport error / close() / mid-frame cut (also '
@@ -157,6 +162,9 @@ def search(ctx, budget):
             found.extend(oracle(sc))
         for case in tcp_cases(ctx):
             found.extend(tcp_oracle(case, run_tcp_cut(*case)))
+        found.extend(immediate_close_oracle())
+        from harness.props import c07
+        found.extend(c07.late_requests_oracle())
     return found
 
 
@@ -165,6 +173,12 @@ def replay(obj):
     if 'tcp_case' in case:
         c = tuple(case['tcp_case'])
         return bool(tcp_oracle(c, run_tcp_cut(*c)))
+    if 'immediate_case' in case:
+        return bool(immediate_close_oracle())
+    if 'late_case' in case:
+        from harness.props import c07
+        role, cause, kinds = case['late_case']
+        return c07.late_requests(role, cause, tuple(kinds))['bad']
     runs, crashed = E.run_all([case['scenario']], post=after_close)
     return bool(crashed) or any(oracle(sc) for sc in runs)
 
@@ -363,4 +377,80 @@ def tcp_cases(ctx):
             for mode in ('eof', 'reset'):
                 for sb in ((True, False) if (ctx.thorough or k % 2 == 0) else (False,)):
                     out.append((role, k, mode, sb))
+    return out
+
+
+# ---------------------------------------------------------------------------------------------
+# close() at the earliest possible moment: in the same loop iteration in which the endpoint was created and its first requests
+# were issued (an accept callback that decides to refuse the peer), and one iteration later — before the receiver task has run
+
+def run_immediate_close(role, gap):
+    import asyncio
+    from datetime import timedelta
+    from harness import sim
+    from rsocket.rsocket_client import RSocketClient
+    from rsocket.rsocket_server import RSocketServer
+    from rsocket.request_handler import BaseRequestHandler
+    from rsocket.helpers import single_transport_provider
+    from rsocket.payload import Payload
+    from reactivestreams.subscriber import DefaultSubscriber
+    loop = sim.new_loop()
+    sim.patch_clock(loop)
+    T = sim.make_transport_class()
+    t = T(lenreq=True)
+    state = {'on_close': 0, 'terminals': []}
+
+    class H(BaseRequestHandler):
+        async def on_close(self, rsocket, exception=None):
+            state['on_close'] += 1
+
+    class Sub(DefaultSubscriber):
+        def on_error(self, exception):
+            state['terminals'].append('error')
+
+        def on_complete(self):
+            state['terminals'].append('complete')
+    box = {}
+    try:
+        async def scenario():
+            # one coroutine creates the endpoint, issues the requests and closes it, yielding to the loop `gap` times in between
+            if role == 'server':
+                e = box['e'] = RSocketServer(t, handler_factory=H)
+            else:
+                e = box['e'] = RSocketClient(single_transport_provider(t), handler_factory=H, keep_alive_period=timedelta(seconds=1000),
+                                             max_lifetime_period=timedelta(seconds=5000))
+                await e.connect()
+            box['f'] = e.request_response(Payload(b'r'))
+            e.request_stream(Payload(b's')).subscribe(Sub())
+            for _ in range(gap):
+                await asyncio.sleep(0)
+            await e.close()
+        loop.run(lambda: asyncio.create_task(scenario()))
+        loop.settle()
+        sent_before = len(t.sent)
+        loop.run_until(loop.time() + 5000)
+        return {'pending': not box['f'].done(), 'terminals': state['terminals'], 'on_close': state['on_close'],
+                'sent_after_close': len(t.sent) - sent_before,
+                'open': sorted(box['e']._stream_control._streams)}
+    finally:
+        loop.finish()
+
+
+def immediate_close_oracle():
+    out = []
+    for role in ('server', 'client'):
+        for gap in (0, 1, 2):
+            r = run_immediate_close(role, gap)
+            bad = []
+            if r['pending']:
+                bad.append('request_response left hanging')
+            if r['terminals'] != ['error']:
+                bad.append('stream subscriber terminal signals %r' % (r['terminals'],))
+            if r['on_close'] != 1:
+                bad.append('on_close delivered %d times' % r['on_close'])
+            if r['sent_after_close']:
+                bad.append('%d frames written after close' % r['sent_after_close'])
+            if bad:
+                out.append({'what': 'close() %d iteration(s) after the endpoint was created: %s' % (gap, '; '.join(bad)),
+                            'immediate_case': [role, gap]})
     return out
